@@ -51,6 +51,10 @@ type vc13Script struct {
 	// kinds that transmit a part.
 	CutPct int `json:"c,omitempty"`
 
+	// Over is, for the oversize kinds, the number of octets by which the
+	// body exceeds the size limit; 0 means a few thousand.
+	Over int `json:"over,omitempty"`
+
 	// Flavor is the content flavour for the two indexes: "" (valid),
 	// "notjson", and for the service index also "badid", "nilentry",
 	// "typeerr".
@@ -329,26 +333,46 @@ func (w *vc13World) plan(n int, rd *vc13Round) (resps map[string]*vc13Resp, info
 	resps = map[string]*vc13Resp{}
 	info = &vc13RoundInfo{n: n, urls: map[string]*vc13URLInfo{}}
 
-	add := func(path string, sc vc13Script, fresh func(fill int) (body []byte), valid bool, same []byte) (ui *vc13URLInfo) {
+	add := func(path string, sc vc13Script, fresh func(fill, pad int) (body []byte), valid bool, same []byte) (ui *vc13URLInfo) {
+		limit := vc13MaxSize
+		if strings.HasPrefix(path, "/hp/") {
+			limit = w.hashMax
+		}
+
 		ui = &vc13URLInfo{kind: sc.Kind}
 		r := &vc13Resp{kind: sc.Kind}
 		switch sc.Kind {
 		case vc13OKNew:
-			r.body = fresh(sc.Fill)
+			r.body = fresh(sc.Fill, 0)
 			ui.ok = true
 		case vc13OKSame:
 			if same != nil {
 				r.body = same
 			} else {
-				r.body = fresh(sc.Fill)
+				r.body = fresh(sc.Fill, 0)
 			}
 			ui.ok = true
-		case vc13Oversize:
-			r.body = fresh(vc13OversizeFill)
+		case vc13Oversize, vc13OversizeChunked, vc13OversizeClose:
+			if sc.Over > 0 {
+				// A well-formed body of exactly limit+Over octets.
+				const minPad = 3
+				want := limit + sc.Over
+				pad := minPad + want - len(fresh(2, minPad))
+				if pad < minPad {
+					panic("vc13: cannot make a body that small")
+				}
+
+				r.body = fresh(2, pad)
+				if len(r.body) != want {
+					panic(fmt.Sprintf("vc13: sized body has %d octets, want %d", len(r.body), want))
+				}
+			} else {
+				r.body = fresh(vc13OversizeFill, 0)
+			}
 		case vc13S404, vc13S500:
-			r.body = fresh(sc.Fill)
+			r.body = fresh(sc.Fill, 0)
 		case vc13HangBody, vc13ShortCL, vc13ChunkTrunc:
-			r.body = fresh(sc.Fill)
+			r.body = fresh(sc.Fill, 0)
 			r.cut = vc13Cut(len(r.body), sc.CutPct)
 		case vc13ConnClose, vc13HangHdr, vc13Empty:
 			// No body.
@@ -356,16 +380,11 @@ func (w *vc13World) plan(n int, rd *vc13Round) (resps map[string]*vc13Resp, info
 			panic("vc13: bad kind " + string(sc.Kind))
 		}
 
-		limit := vc13MaxSize
-		if strings.HasPrefix(path, "/hp/") {
-			limit = w.hashMax
-		}
-
 		if ui.ok && len(r.body) >= limit {
 			panic("vc13: complete body is too large")
 		}
 
-		if sc.Kind == vc13Oversize && len(r.body) <= limit {
+		if vc13IsOversize(sc.Kind) && len(r.body) <= limit {
 			panic("vc13: oversize body is too small")
 		}
 
@@ -388,9 +407,8 @@ func (w *vc13World) plan(n int, rd *vc13Round) (resps map[string]*vc13Resp, info
 	{
 		sc := rd.Idx
 		var fresh *vc13IdxInfo
-		mk := func(_ int) (body []byte) {
-			pad := 0
-			if sc.Kind == vc13Oversize {
+		mk := func(_, pad int) (body []byte) {
+			if pad == 0 && vc13IsOversize(sc.Kind) {
 				pad = vc13MaxSize + 100
 			}
 
@@ -433,10 +451,10 @@ func (w *vc13World) plan(n int, rd *vc13Round) (resps map[string]*vc13Resp, info
 			flavor = sc.Flavor
 		}
 
-		mk := func(fill int) (body []byte) {
+		mk := func(fill, pad int) (body []byte) {
 			w.try(s.name, n)
 
-			return vc13Body(s, n, fill, flavor)
+			return vc13Body(s, n, fill, flavor, pad)
 		}
 
 		valid := flavor == ""
@@ -481,10 +499,10 @@ func (w *vc13World) plan(n int, rd *vc13Round) (resps map[string]*vc13Resp, info
 		}
 
 		dver := n + vc13DupOffset
-		dmk := func(fill int) (body []byte) {
+		dmk := func(fill, pad int) (body []byte) {
 			w.try(s.name, dver)
 
-			return vc13Body(s, dver, fill, "")
+			return vc13Body(s, dver, fill, "", pad)
 		}
 
 		dui := add(s.path+"/dup", dsc, dmk, false, nil)
